@@ -232,6 +232,29 @@ Claim(S, x) ==
   IN [S EXCEPT !.rg = [r \in Regions |-> IF r \in rs THEN [S.rg[r] EXCEPT !.claimed = TRUE] ELSE S.rg[r]],
                !.pool = @ + add]
 
+(* Buffer::shrink_to_fit (immutable.rs:215, Bytes::try_realloc): the wanted   *)
+(* capacity is everything up to the end of the buffer (offset + length, in    *)
+(* bytes), or nothing at all for an empty buffer.  Only if that is less than  *)
+(* the capacity, the buffer is the only reference (Arc::get_mut) and the      *)
+(* region is a standard allocation, the region is reallocated (freed when the *)
+(* wanted capacity is 0): its capacity -- and its pool reservation, if it has *)
+(* one -- becomes exactly the wanted capacity, the tail is gone, and what the  *)
+(* buffer shows is unchanged.  In every other case nothing changes.           *)
+WantedBytes(S, h) ==
+  IF h.len = 0 THEN 0
+  ELSE IF S.rg[h.refs[1]].bits THEN (h.off + h.len + 7) \div 8 ELSE 4 * (h.off + h.len)
+CanShrink(S, x) ==
+  LET h == S.hd[x] r == h.refs[1] IN
+  h.kind = "buffer" /\ WantedBytes(S, h) < S.rg[r].size /\ RC(S, r) = 1 /\ Mutable(S, r)
+ShrinkToFit(S, x) ==
+  LET h == S.hd[x] r == h.refs[1] want == WantedBytes(S, h) IN
+  IF ~CanShrink(S, x) THEN S
+  ELSE LET keep == IF h.len = 0 THEN 0 ELSE h.off + h.len
+           rg1 == [S.rg EXCEPT ![r].size = want, ![r].mem = Sub(@, 0, keep)]
+           h1 == IF h.len = 0 THEN [h EXCEPT !.off = 0] ELSE h
+       IN [S EXCEPT !.rg = rg1, !.hd = [S.hd EXCEPT ![x] = Snap(rg1, h1)],
+                    !.pool = @ - (IF S.rg[r].claimed THEN S.rg[r].size - want ELSE 0)]
+
 PoolExpected(S) ==
   LET C == {r \in Regions : S.rg[r].alive /\ S.rg[r].claimed}
       F[T \in SUBSET C] == IF T = {} THEN 0 ELSE LET r == CHOOSE r \in T : TRUE IN S.rg[r].size + F[T \ {r}]
